@@ -134,8 +134,30 @@ pub struct ProcOut {
     pub timed_out: bool,
 }
 
+/// size of rayon's global pool for a run of the binary (`RAYON_NUM_THREADS`; `-t` sizes the pools the computers build
+/// themselves): chosen by a hash of the case so that a replay repeats it; `None` = auto-detected
+pub fn pool_env(req: &str) -> Option<u32> {
+    let mut h: u64 = 0x9e3779b97f4a7c15;
+    for b in req.bytes() {
+        h = (h ^ b as u64).wrapping_mul(0x100000001b3);
+    }
+    [None, None, Some(1), Some(3), Some(6), Some(13), Some(24), Some(48)][((h >> 11) % 8) as usize]
+}
+
 pub fn run_bin(bin: &str, args: &[String], stdin: Option<&[u8]>, timeout_s: u64) -> ProcOut {
+    run_bin_env(bin, args, stdin, timeout_s, None)
+}
+
+pub fn run_bin_env(bin: &str, args: &[String], stdin: Option<&[u8]>, timeout_s: u64, pool: Option<u32>) -> ProcOut {
     let mut cmd = Command::new(bin);
+    match pool {
+        Some(n) => {
+            cmd.env("RAYON_NUM_THREADS", n.to_string());
+        }
+        None => {
+            cmd.env_remove("RAYON_NUM_THREADS");
+        }
+    }
     cmd.args(args).stdout(Stdio::null()).stderr(Stdio::piped());
     cmd.stdin(if stdin.is_some() { Stdio::piped() } else { Stdio::null() });
     let mut child = match cmd.spawn() {
@@ -380,7 +402,7 @@ pub fn run_case(c: &CliCase, bin: &str, work: &str, uid: &str, out: &str) -> Run
         Sub::Oligo { stdin: true, .. } => Some(std::fs::read(&inp).unwrap_or_default()),
         _ => None,
     };
-    let proc = run_bin(bin, &args, stdin_bytes.as_deref(), 60);
+    let proc = run_bin_env(bin, &args, stdin_bytes.as_deref(), 60, pool_env(&c.req()));
     let files = collect(out, c.out_is_dir());
     let _ = std::fs::remove_file(&inp);
     if let Some(a) = alt {
@@ -513,10 +535,16 @@ pub fn gen_cli(r: &mut Rng, degenerate: bool) -> CliCase {
     match which {
         0 | 1 => {
             let k = pick_in_out(r, 3, 7).min(9);
-            let recs = seqs(r, nrec, k.max(1) as usize, 120, degenerate);
+            let mut recs = seqs(r, nrec, k.max(1) as usize, 120, degenerate);
+            if !degenerate && r.chance(1, 3) && (1..=8).contains(&k) {
+                // a record whose window total is a multiple of 640 = 2^7*5: count/total is then often an exact tie at the 7th
+                // decimal, where `{:.6}` must round the exactly divided value half-to-even
+                let l = 640 * r.range(1, 3) as usize + k as usize - 1;
+                recs.push(gen::clean_seq(r, l, gen::Flavor::Uniform));
+            }
             let container = if degenerate && r.chance(1, 6) { "empty".into() } else { r.pick(&["fa", "fa", "fq", "fawrap:7", "fagz"]).to_string() };
             let recs = fix_fq(recs, &container);
-            let stdin = r.chance(1, 6) && container != "fagz";
+            let stdin = r.chance(1, 4) && container != "fagz";
             CliCase { sub: Sub::Oligo { k, counts: r.chance(1, 2), header: r.chance(1, 2), preset, threads, stdin }, recs, container }
         }
         2 => {
@@ -537,8 +565,13 @@ pub fn gen_cli(r: &mut Rng, degenerate: bool) -> CliCase {
         }
         3 => {
             let k = pick_in_out(r, 7, 31).min(33);
-            let recs = seqs(r, nrec, k.max(1) as usize, 150, degenerate);
-            let alt = if r.chance(1, 4) { Some(seqs(r, 3, k.max(1) as usize, 150, false)) } else { None };
+            let mut recs = seqs(r, nrec, k.max(1) as usize, 150, degenerate);
+            if !degenerate && r.chance(1, 3) && (1..=31).contains(&k) {
+                let l = 640 * r.range(1, 2) as usize + k as usize - 1;
+                recs.push(gen::clean_seq(r, l, gen::Flavor::Tandem));
+            }
+            // a separate counting input: unrelated records, or (degenerate) one without any countable k-mer
+            let alt = if r.chance(1, 4) { Some(seqs(r, 3, k.max(1) as usize, 150, false)) } else if degenerate && r.chance(1, 3) { let n = r.below(3) as usize; Some(seqs(r, n, k.max(1) as usize, 20, true)) } else { None };
             let bs = if r.chance(1, 5) { r.range(3, 4) } else { r.range(5, 20) };
             let bc = if r.chance(1, 5) { r.range(3, 4) } else { r.range(5, 20) };
             let mem = if r.chance(1, 5) { *r.pick(&[5u64, 129, 0]) } else { *r.pick(&[6u64, 7, 128]) };
@@ -1144,6 +1177,12 @@ pub fn run_c03_cli(rep: &mut Report, tier: &str, seed: u64, model: &Model, bin: 
                 let recs = vec![gen::clean_seq(&mut r, 2 * k as usize + 3, gen::Flavor::Uniform), gen::clean_seq(&mut r, k as usize, gen::Flavor::Uniform)];
                 cases.push(CliCase { sub: Sub::Oligo { k, counts, header: true, preset: preset.into(), threads: 2, stdin: false }, recs, container: "fa".into() });
             }
+        }
+    }
+    // an input without records still gets its header line, through both writers
+    for k in [3u64, 5, 7] {
+        for counts in [false, true] {
+            cases.push(CliCase { sub: Sub::Oligo { k, counts, header: true, preset: "csv".into(), threads: 2, stdin: false }, recs: vec![], container: "empty".into() });
         }
     }
     rep.exhaustive_spaces.push("CLI header for every accepted k (3..=7) x every delimiter preset x both writer paths".into());
